@@ -456,6 +456,11 @@ class Workspace(AbstractContextManager):
         ):
             entity_kwargs["parent"] = self.root
 
+        if entity_class is not RootGroup:
+            uid = str2uuid(entity_kwargs.get("uid", entity_kwargs.get("ID")))
+            if isinstance(uid, uuid.UUID) and self.find_entity(uid) is not None:
+                raise RuntimeError(f"Key '{uid}' already used.")
+
         created_entity: Data | Group | ObjectBase | None = None
         if entity_class is None or issubclass(entity_class, Data):
             created_entity = self.create_data(Data, entity_kwargs, entity_type_kwargs)
